@@ -6,6 +6,7 @@ import (
 	"fmt"
 	"strings"
 	"sync"
+	"time"
 
 	"verif/harness/lib"
 )
@@ -287,6 +288,23 @@ func pebModelComparable(t *tracker, o Op) bool {
 	return false
 }
 
+// askAllDeadline: a driver that neither answers nor dies must not hang the harness.
+func askAllDeadline(d *lib.Driver, ls []string) (out []string, err error) {
+	done := lib.WithDeadline(120*time.Second, func() { out, err = d.AskAll(ls) })
+	if !done {
+		return nil, fmt.Errorf("no answer to %d lines within 120 s", len(ls))
+	}
+	return out, err
+}
+
+func askDeadline(d *lib.Driver, l string) (out string, err error) {
+	done := lib.WithDeadline(60*time.Second, func() { out, err = d.Ask(l) })
+	if !done {
+		return "", fmt.Errorf("no answer to %q within 60 s", l)
+	}
+	return out, err
+}
+
 // Run executes ops on the three real backends and, if a driver is there, on the Lean models.
 func (rn *Runner) Run(ops []Op) (*SeqResult, error) {
 	sr := &SeqResult{InContract: true, Outs: map[string][]string{}}
@@ -302,7 +320,7 @@ func (rn *Runner) Run(ops []Op) (*SeqResult, error) {
 			}
 		}
 		rn.mu.Lock()
-		a, err := rn.drv.AskAll(ls)
+		a, err := askAllDeadline(rn.drv, ls)
 		rn.mu.Unlock()
 		if err != nil {
 			return nil, fmt.Errorf("lean driver: %w", err)
